@@ -30,6 +30,9 @@ Fixpoint de_glyph (fuel : nat) (l : list Z) : option (ModelMaxp.glyph * list Z) 
 Global Instance De_glyph : De ModelMaxp.glyph := fun l => de_glyph (S (List.length l)) l.
 Definition comp_values_top (g : ModelMaxp.glyph) : Z * Z * Z := ModelMaxp.comp_values g 1.
 
+From FV Require C04.ModelDeps Data.Data_deps.
+Definition save_order_entry (present tags : list (list Z)) : option (list (list Z)) :=
+  match ModelDeps.save_order 8 Data_deps.table_dependencies present tags with Some (_, comp) => Some comp | None => None end.
 Open Scope string_scope.
 Definition reg : registry := [
   ("calcChecksum", run1 calcChecksum);
@@ -39,6 +42,7 @@ Definition reg : registry := [
   ("encodeTriplets", run1 ModelTriplet.encodeTriplets);
   ("decodeTriplets", run3 ModelTriplet.decodeTriplets);
   ("compositeMaxp", run1 comp_values_top);
-  ("recalcComposites", run1 ModelMaxp.recalc_composites)
+  ("recalcComposites", run1 ModelMaxp.recalc_composites);
+  ("save_order", run2 save_order_entry)
 ].
 Definition fv_entry := dispatch reg.
